@@ -297,3 +297,171 @@ Proof.
 Qed.
 
 End FlipRoll.
+
+(* ---------- quarter turns ---------- *)
+Lemma swap_list_length l i j : length (swap_list l i j) = length l.
+Proof. unfold swap_list. now rewrite !upd_length. Qed.
+
+Lemma pick_swap c i j : i < length c -> j < length c ->
+  pick (swap_list (seq 0 (length c)) i j) c = swap_list c i j.
+Proof.
+  intros Hi Hj. apply (nth_ext _ _ 0 0).
+  - now rewrite pick_length, !swap_list_length, seq_length.
+  - intros k Hk. rewrite pick_length, swap_list_length, seq_length in Hk.
+    rewrite nth_pick by (rewrite swap_list_length, seq_length; exact Hk).
+    rewrite !nth_swap_list by (rewrite ?seq_length; assumption).
+    destruct (k =? j); [now rewrite seq_nth by lia|]. destruct (k =? i); now rewrite seq_nth by lia.
+Qed.
+
+Lemma swap_list_invol l i j : i < length l -> j < length l -> swap_list (swap_list l i j) i j = l.
+Proof.
+  intros Hi Hj. apply (nth_ext _ _ 0 0); [now rewrite !swap_list_length|].
+  intros k Hk. rewrite !swap_list_length in Hk.
+  rewrite nth_swap_list by (rewrite swap_list_length; assumption). rewrite !nth_swap_list by assumption.
+  rewrite !Nat.eqb_refl.
+  destruct (Nat.eqb_spec k j) as [->|Nj].
+  - destruct (Nat.eqb_spec i j) as [->|]; reflexivity.
+  - destruct (Nat.eqb_spec k i) as [->|Ni]; [|reflexivity]. destruct (Nat.eqb_spec j i); [congruence | reflexivity].
+Qed.
+
+Lemma in_range_swap sh c i j : i < length sh -> j < length sh -> in_range sh c -> in_range (swap_list sh i j) (swap_list c i j).
+Proof.
+  intros Hi Hj H. apply in_range_nth. apply (proj1 (in_range_nth _ _)) in H as [L N].
+  split; [now rewrite !swap_list_length|]. intros k Hk. rewrite swap_list_length in Hk.
+  rewrite !nth_swap_list by (rewrite ?L; assumption).
+  destruct (k =? j); [now apply N|]. destruct (k =? i); now apply N.
+Qed.
+
+Section Transposition.
+Context {T : Type} (dflt : T).
+
+(* exchanging two axes, as a coordinate statement *)
+Lemma transpose_swap_spec (a : arr T) i j :
+  wf a -> i < ndim a -> j < ndim a ->
+  exists R, transpose dflt a (Some (map Z.of_nat (swap_list (seq 0 (ndim a)) i j))) = Ok R /\ wf R /\
+    shape R = swap_list (shape a) i j /\
+    forall c, in_range (shape R) c -> get dflt R c = get dflt a (swap_list c i j).
+Proof.
+  intros W Hi Hj. pose proof (swap_seq_is_perm (ndim a) i j Hi Hj) as P.
+  rewrite transpose_of_perm by exact P.
+  destruct (transpose_perm_ok dflt a _ W ltac:(lia) P) as (R & E & WR & SR & G & _).
+  exists R. split; [exact E|]. split; [exact WR|]. unfold ndim in *.
+  assert (shape R = swap_list (shape a) i j) as SR' by (rewrite SR; now apply pick_swap).
+  split; [exact SR'|]. intros c Hc. rewrite SR' in Hc.
+  pose proof (in_range_length _ _ Hc) as Lc. rewrite swap_list_length in Lc.
+  assert (in_range (shape a) (swap_list c i j)) as Hc'.
+  { rewrite <- (swap_list_invol (shape a) i j Hi Hj). apply in_range_swap; rewrite ?swap_list_length; auto. }
+  rewrite <- (G _ Hc'). f_equal. pose proof (in_range_length _ _ Hc') as L'. rewrite <- L'.
+  rewrite pick_swap by (rewrite L'; assumption). symmetry. apply swap_list_invol; lia.
+Qed.
+
+End Transposition.
+
+Section QuarterTurns.
+Context {T : Type} (dflt : T).
+
+Lemma pos_shape_swap sh i j : i < length sh -> j < length sh -> pos_shape sh -> pos_shape (swap_list sh i j).
+Proof.
+  intros Hi Hj P. unfold pos_shape in *. rewrite Forall_forall in *. intros x Hx.
+  apply In_nth with (d := 0) in Hx as (k & Hk & <-). rewrite swap_list_length in Hk.
+  rewrite nth_swap_list by assumption. destruct (k =? j); [apply P, nth_In, Hi|]. destruct (k =? i); apply P, nth_In; assumption.
+Qed.
+
+(* ONE QUARTER TURN in the plane of axes p, q (natural numbers below the rank): flip the second axis, then exchange
+   the two axes.  The element at c comes from the coordinate with entries p and q exchanged and the q entry mirrored. *)
+Theorem rot90_one (a : arr T) k p q :
+  wf a -> pos_shape (shape a) -> 2 <= ndim a -> (Z.of_nat (ndim a) < two64)%Z -> p < ndim a -> q < ndim a -> k mod 4 = 1 ->
+  exists R, rot90 dflt a k [Z.of_nat p; Z.of_nat q] = Ok R /\ wf R /\ shape R = swap_list (shape a) p q /\
+    forall c, in_range (shape R) c ->
+      get dflt R c = get dflt a (upd (swap_list c p q) q (nth q (shape a) 0 - 1 - nth p c 0)).
+Proof.
+  intros W P N2 B Hp Hq K. unfold rot90. destruct (Nat.ltb_spec (ndim a) 2); [lia|].
+  destruct (Z.leb_spec (Z.of_nat (ndim a)) (Z.of_nat p)), (Z.ltb_spec (Z.of_nat p) (- Z.of_nat (ndim a))),
+    (Z.leb_spec (Z.of_nat (ndim a)) (Z.of_nat q)), (Z.ltb_spec (Z.of_nat q) (- Z.of_nat (ndim a))); try lia. cbn [orb].
+  rewrite K. cbn [Nat.eqb].
+  destruct (normalize_axis_ok (ndim a) (Z.of_nat p) B (axis_ok_of_nat _ _ Hp)) as [Ep _].
+  destruct (normalize_axis_ok (ndim a) (Z.of_nat q) B (axis_ok_of_nat _ _ Hq)) as [Eq _].
+  rewrite Ep, Eq, !norm_nat_of_nat, !Nat2Z.id.
+  destruct (flip_one_axis dflt a (Z.of_nat q) W P B (axis_ok_of_nat _ _ Hq)) as (f & Ef & Wf & Sf & Gf).
+  rewrite norm_nat_of_nat in Gf. rewrite Ef. cbn [bind].
+  assert (ndim f = ndim a) as Nf by (unfold ndim; now rewrite Sf).
+  rewrite <- Nf. destruct (transpose_swap_spec dflt f p q Wf ltac:(lia) ltac:(lia)) as (R & ER & WR & SR & GR).
+  exists R. split; [exact ER|]. split; [exact WR|]. rewrite Sf in SR. split; [exact SR|].
+  intros c Hc. rewrite (GR c Hc). rewrite SR in Hc. unfold ndim in *.
+  pose proof (in_range_length _ _ Hc) as Lc. rewrite swap_list_length in Lc.
+  assert (in_range (shape a) (swap_list c p q)) as Hc'.
+  { rewrite <- (swap_list_invol (shape a) p q Hp Hq). apply in_range_swap; rewrite ?swap_list_length; auto. }
+  rewrite (Gf _ Hc'). f_equal. f_equal. rewrite nth_swap_list by lia. now rewrite Nat.eqb_refl.
+Qed.
+
+(* the count only matters modulo four *)
+Theorem rot90_mod4 (a : arr T) k axes : rot90 dflt a k axes = rot90 dflt a (k mod 4) axes.
+Proof. unfold rot90. now rewrite Nat.mod_mod by lia. Qed.
+
+Ltac coord_cases c p q :=
+  apply (nth_ext _ _ 0 0); [now rewrite ?upd_length, ?swap_list_length|];
+  let k := fresh "k" in let Hk := fresh "Hk" in intros k Hk; rewrite ?upd_length, ?swap_list_length in Hk;
+  repeat (rewrite ?nth_upd, ?nth_swap_list, ?upd_length, ?swap_list_length by (rewrite ?upd_length, ?swap_list_length; lia));
+  destruct (Nat.eqb_spec q k); destruct (Nat.eqb_spec p k); destruct (Nat.eqb_spec k q); destruct (Nat.eqb_spec k p); subst; try lia;
+  repeat match goal with |- context [?x <? ?y] => destruct (Nat.ltb_spec x y); try lia end; cbn [andb]; try reflexivity; try lia.
+
+(* TWO quarter turns = the flip of both axes, = two successive single turns *)
+Theorem rot90_two (a : arr T) p q :
+  wf a -> pos_shape (shape a) -> 2 <= ndim a -> (Z.of_nat (ndim a) < two64)%Z -> p < ndim a -> q < ndim a -> p <> q ->
+  exists R1 R, rot90 dflt a 1 [Z.of_nat p; Z.of_nat q] = Ok R1 /\ rot90 dflt R1 1 [Z.of_nat p; Z.of_nat q] = Ok R /\
+    rot90 dflt a 2 [Z.of_nat p; Z.of_nat q] = Ok R /\ shape R = shape a /\
+    forall c, in_range (shape a) c ->
+      get dflt R c = get dflt a (upd (upd c p (nth p (shape a) 0 - 1 - nth p c 0)) q (nth q (shape a) 0 - 1 - nth q c 0)).
+Proof.
+  intros W P N2 B Hp Hq Npq.
+  destruct (rot90_one a 1 p q W P N2 B Hp Hq eq_refl) as (R1 & E1 & W1 & S1 & G1).
+  assert (ndim R1 = ndim a) as N1 by (unfold ndim; rewrite S1; apply swap_list_length).
+  assert (pos_shape (shape R1)) as P1 by (rewrite S1; apply pos_shape_swap; auto).
+  destruct (rot90_one R1 1 p q W1 P1 ltac:(lia) ltac:(rewrite N1; exact B) ltac:(lia) ltac:(lia) eq_refl) as (R & E2 & W2 & S2 & G2).
+  exists R1, R. split; [exact E1|]. split; [exact E2|].
+  assert (shape R = shape a) as SR by (rewrite S2, S1; apply swap_list_invol; auto).
+  (* the coordinate map of the two turns *)
+  assert (forall c, in_range (shape a) c ->
+            get dflt R c = get dflt a (upd (upd c p (nth p (shape a) 0 - 1 - nth p c 0)) q (nth q (shape a) 0 - 1 - nth q c 0))) as GR.
+  { intros c Hc. pose proof (in_range_length _ _ Hc) as Lc. unfold ndim in *.
+    pose proof (proj1 (in_range_nth _ _) Hc) as [_ Nc].
+    rewrite (G2 c) by (rewrite SR; exact Hc). rewrite S1.
+    set (c1 := upd (swap_list c p q) q (nth q (swap_list (shape a) p q) 0 - 1 - nth p c 0)).
+    assert (in_range (shape R1) c1) as H1.
+    { rewrite S1. apply in_range_nth. split; [unfold c1; now rewrite upd_length, !swap_list_length|].
+      intros k Hk. rewrite swap_list_length in Hk. unfold c1.
+      rewrite nth_upd, ?upd_length, ?swap_list_length. rewrite !nth_swap_list by lia.
+      pose proof (Nc p Hp). pose proof (Nc q Hq). pose proof (Nc k Hk).
+      destruct (Nat.ltb_spec q (length c)); [|lia].
+      destruct (Nat.eqb_spec q k); destruct (Nat.eqb_spec k q); destruct (Nat.eqb_spec k p); cbn [andb]; subst; rewrite ?Nat.eqb_refl; try lia. }
+    rewrite (G1 c1 H1). f_equal. unfold c1. rewrite !nth_swap_list by lia. rewrite !Nat.eqb_refl.
+    destruct (Nat.eqb_spec q p); [congruence|].
+    pose proof (Nc p Hp). pose proof (Nc q Hq).
+    apply (nth_ext _ _ 0 0); [repeat rewrite ?upd_length, ?swap_list_length; reflexivity|].
+    intros k Hk. repeat rewrite ?upd_length, ?swap_list_length in Hk.
+    repeat (rewrite ?nth_upd, ?nth_swap_list, ?upd_length, ?swap_list_length by (rewrite ?upd_length, ?swap_list_length; lia)).
+    destruct (Nat.ltb_spec q (length c)); [|lia]. destruct (Nat.ltb_spec p (length c)); [|lia].
+    destruct (Nat.eqb_spec q k); destruct (Nat.eqb_spec p k); destruct (Nat.eqb_spec k q); destruct (Nat.eqb_spec k p); cbn [andb]; subst; rewrite ?Nat.eqb_refl;
+      repeat (match goal with |- context [?x =? ?y] => destruct (Nat.eqb_spec x y); try lia end; cbn [andb]); try lia; try reflexivity. }
+  split; [|split; [exact SR | exact GR]].
+  (* the model's own two-turn form: flip the second axis, then the first *)
+  unfold rot90. destruct (Nat.ltb_spec (ndim a) 2); [lia|].
+  destruct (Z.leb_spec (Z.of_nat (ndim a)) (Z.of_nat p)), (Z.ltb_spec (Z.of_nat p) (- Z.of_nat (ndim a))),
+    (Z.leb_spec (Z.of_nat (ndim a)) (Z.of_nat q)), (Z.ltb_spec (Z.of_nat q) (- Z.of_nat (ndim a))); try lia. cbn [orb].
+  change (2 mod 4) with 2.
+  destruct (flip_one_axis dflt a (Z.of_nat q) W P B (axis_ok_of_nat _ _ Hq)) as (f & Ef & Wf & Sf & Gf).
+  rewrite norm_nat_of_nat in Gf. rewrite Ef. cbn [bind].
+  assert (ndim f = ndim a) as Nf by (unfold ndim; now rewrite Sf).
+  destruct (flip_one_axis dflt f (Z.of_nat p) Wf ltac:(rewrite Sf; exact P) ltac:(rewrite Nf; exact B)
+              ltac:(apply axis_ok_of_nat; lia)) as (g & Eg & Wg & Sg & Gg).
+  rewrite norm_nat_of_nat in Gg. rewrite Eg. f_equal. apply (array_ext dflt); auto; [congruence|].
+  intros c Hc. rewrite Sg, Sf in Hc. rewrite (Gg c) by (rewrite Sf; exact Hc). rewrite Sf.
+  pose proof (in_range_length _ _ Hc) as Lc. unfold ndim in *. pose proof (proj1 (in_range_nth _ _) Hc) as [_ Nc].
+  pose proof (Nc p Hp). pose proof (Nc q Hq).
+  rewrite Gf.
+  - rewrite (GR c Hc). f_equal. rewrite nth_upd. destruct (Nat.eqb_spec p q); [congruence|]. cbn [andb]. reflexivity.
+  - apply in_range_nth. split; [now rewrite upd_length|]. intros k Hk. rewrite nth_upd.
+    destruct (Nat.ltb_spec p (length c)); [|lia]. destruct (Nat.eqb_spec p k); cbn [andb]; [subst; lia | apply Nc; lia].
+Qed.
+
+End QuarterTurns.
